@@ -24,8 +24,9 @@ func CreateSavepointArtifact(fs locations.StorageLocation, savepointsPath string
 			return "", err
 		}
 
-		// Get a list of URIs that the checkpoint references.
-		files, err := recovery.ListFiles(bytes.NewBuffer(checkpointsData))
+		// Get a list of URIs that the operator's checkpoint for this snapshot
+		// references. The operator may already have added later checkpoints.
+		files, err := recovery.ListCheckpointFiles(bytes.NewBuffer(checkpointsData), opCkpt.CheckpointId)
 		if err != nil {
 			return "", err
 		}
@@ -72,7 +73,7 @@ func RestoreCheckpointFromSavepointArtifact(fs locations.StorageLocation, savepo
 		}
 
 		// Get a list of referenced files to copy into place
-		files, err := recovery.ListFiles(bytes.NewBuffer(cpData))
+		files, err := recovery.ListCheckpointFiles(bytes.NewBuffer(cpData), opCkpt.CheckpointId)
 		if err != nil {
 			return err
 		}
